@@ -235,7 +235,10 @@ def classify(res, text):
         if re.search(r"^error(\[E\d+\])?:", text, re.M):
             return "compile_error"
         return "error"
-    if any("unwinding assertion" in f["desc"] for f in res["failed"]):
+    # a violated aspect is a real bounded execution even if some loop elsewhere exceeded its unwinding bound on another
+    # path (seed C14c: a call number routed to write() with an unbounded length); it goes on to extraction + native replay
+    aspect_fail = any(f["status"] == "FAILURE" and f["desc"].startswith("aspect:") for f in res["failed"])
+    if any("unwinding assertion" in f["desc"] for f in res["failed"]) and not aspect_fail:
         return "unwind"
     if any(f["status"] == "UNDETERMINED" for f in res["failed"]) and not any(f["status"] == "FAILURE" for f in res["failed"]):
         return "error"
